@@ -323,7 +323,7 @@ __CPROVER_ensures(TCN_SKIPPED(track, __CPROVER_old(track->ip_idx)))
 __CPROVER_ensures(TCN_UNTOUCHED(track, __CPROVER_old(track->ip_idx)))
 /* PO[C13] track_connect_next.current_attempt */
 __CPROVER_ensures(TCN_CURRENT(track, __CPROVER_old(track->ip_idx)))
-/* PO[C13] track_connect_next.errno_of_last_failed_attempt */
+/* PO[C13,C06] track_connect_next.errno_of_last_failed_attempt */
 __CPROVER_ensures(TCN_REASON(track, __CPROVER_old(track->badness_reason)))
 /* PO[C13] track_connect_next.one_attempt_per_address */
 __CPROVER_ensures(TCN_BOUNDED(track, __CPROVER_old(track->ip_idx)))
@@ -460,7 +460,7 @@ __CPROVER_assigns(TRK_ASSIGNS(track), track->fd4, track->fd6, *fd, *scope, *tcp_
 __CPROVER_ensures((__CPROVER_return_value == 0 || __CPROVER_return_value == -1) && (TRK_IN_PROGRESS(track) || track->state == track_state_bad || track->state == track_state_finished))
 /* PO[C13] track_get_connected_fd.in_progress_is_EAGAIN */
 __CPROVER_ensures(TRK_IN_PROGRESS(track) ==> (__CPROVER_return_value == -1 && xv_errno == EAGAIN))
-/* PO[C13] track_get_connected_fd.exhausted_reports_errno_of_last_failed_attempt */
+/* PO[C13,C06] track_get_connected_fd.exhausted_reports_errno_of_last_failed_attempt */
 __CPROVER_ensures(track->state == track_state_bad ==> (__CPROVER_return_value == -1 && xv_errno == track->badness_reason && XV_ERRNO_OK(xv_errno)))
 /* PO[C13] track_get_connected_fd.exhausted_stays_exhausted: a track that has run out of addresses stays so, with the same errno, and does nothing */
 __CPROVER_ensures(__CPROVER_old(track->state) == track_state_bad ==> (track->state == track_state_bad && TRK_UNCHANGED_BUT_STATE(track)))
